@@ -101,7 +101,9 @@ ContactCats(x) ==
                 \* the re-fetch after a 304 for an entry that has vanished must be unconditional, or the client is answered
                 \* with an error (C09) although the origin is fine
                 vanishedRefetch == Is("reply") /\ Line.status = 304 /\ ~store[ct.r].present
-            IN (IF inmOK /\ imsOK /\ ~o.ifmatch THEN {} ELSE IF vanishedRefetch THEN {"C06", "C09"} ELSE {"C06"})
+                \* an entry whose data cannot be opened must not be revalidated either: a 304 would leave nothing to serve
+                lostEntry == store[ct.r].present /\ store[ct.r].lost
+            IN (IF inmOK /\ imsOK /\ ~o.ifmatch THEN {} ELSE IF vanishedRefetch \/ lostEntry THEN {"C06", "C09"} ELSE {"C06"})
                \cup (IF reqOK THEN {} ELSE {"C08"})
 \* a request at the origin that the specification does not send
 UnexpectedOpenCats(i, rxv) ==
